@@ -346,6 +346,7 @@ func c15Run(c *Ctx, idx int) CaseResult {
 			nsub++
 			p.SubmitTime = base.Add(time.Duration(r.Intn(1000000))*time.Second + time.Duration(nsub)*time.Nanosecond)
 			p.State.Status = allStatuses[r.Intn(len(allStatuses))]
+			want := rec15{ID: p.ID, Group: p.GroupID, Name: p.Name, Descr: p.Descr, Submit: p.SubmitTime, Status: p.State.Status}
 			if err := h.Vault.Create(ctx, p); err != nil {
 				add("create-error", "", "Create failed: %v", err)
 				continue
@@ -357,8 +358,8 @@ func c15Run(c *Ctx, idx int) CaseResult {
 				return res
 			}
 			live[p.ID] = lp
-			recs = append(recs, rec15{ID: p.ID, Group: p.GroupID, Name: p.Name, Descr: p.Descr, Submit: p.SubmitTime, Status: p.State.Status})
-			log = append(log, fmt.Sprintf("create status=%d", p.State.Status))
+			recs = append(recs, want)
+			log = append(log, fmt.Sprintf("create status=%d", want.Status))
 		case op < 8:
 			i := r.Intn(len(recs))
 			lp := live[recs[i].ID]
